@@ -12,7 +12,7 @@
 From Coq Require Import List String Bool Permutation.
 Import ListNotations.
 From TV Require Import Merge.Model Merge.Spec Merge.ProofsRun Merge.ProofsC08 Merge.ProofsC08Mon Merge.ProofsC08Refs
-     Merge.ProofsKeys Merge.ProofsErrors Extracted.Facts Run.MergeCases Merge.ProofsCurrent.
+     Merge.ProofsKeys Merge.ProofsErrors Merge.ProofsReader Extracted.Facts Run.MergeCases Merge.ProofsCurrent.
 
 (* the shape of Tasks.Merge / graph.Merge is one the model has a variant for *)
 Theorem C08_variant_known : variant_known = true.
@@ -129,6 +129,32 @@ Theorem C08_errors_reader :
   forall fs root g, read fs root = Ok g -> forall n, In n g -> closed fs n.
 Proof. exact read_closed. Qed.
 Print Assumptions C08_errors_reader.
+
+(* include cycles: the graph of a successful read has no cycle, every include statement of every vertex that
+   resolves to a file is an edge, hence no include statement of a visited file leads back to that file *)
+Theorem C08_errors_cycle :
+  forall fs root g, read fs root = Ok g ->
+    ~ cyc g /\
+    forall p f inc c, has_node p g = true -> lookup p fs = Some f -> In inc (f_includes f) ->
+      resolve fs p inc = Some c -> ~ fs_reach fs c p.
+Proof. exact read_rejects_cycles. Qed.
+Print Assumptions C08_errors_cycle.
+
+(* the reader's graph is non-empty, starts at the root and every vertex is reachable from the root
+   (the side conditions of C08_abort_iff_flag, C08_errors_version and C08_errors_dotenv) *)
+Theorem C08_reader_reachable :
+  forall fs root g, read fs root = Ok g -> g <> [] /\ root_of g = root /\ all_reachable g.
+Proof. exact read_reachable. Qed.
+Print Assumptions C08_reader_reachable.
+
+(* graph.Merge returns at the first failing Taskfile.Merge (merge_err); the theorems above speak about the
+   sticky failure flag of the merged root.  On a non-empty graph whose vertices are all reachable from the
+   root (what the reader builds) "some merge failed" and "the root carries the flag" are the same event *)
+Theorem C08_abort_iff_flag :
+  forall v g pi s, valid_load v g pi s -> g <> [] -> all_reachable g ->
+    (merge_err v g pi s = None <-> f_err (merge_all v g pi s) = None).
+Proof. exact abort_iff_flag. Qed.
+Print Assumptions C08_abort_iff_flag.
 
 (* non-vacuity: a diamond of four files (b and d include c, d flattened) meets valid_load and loads without error *)
 Example C08_example :
